@@ -1250,8 +1250,15 @@ fn c19_world(t: &mut Tape, forced: Option<(usize, bool)>) -> RunOut {
             continue;
         }
         if resign {
-            // the signer signs the request *with* the duplicate in place (it is part of the
-            // canonical headers / canonical query); exactly one selection makes this valid
+            // Duplicated date/token *headers* are kept out of the signed list (so the canonical
+            // header block does not change with the duplication: only the selection rule decides);
+            // duplicated query parameters are inevitably part of the canonical query, which the
+            // signer signs with the duplicate in place. Exactly one selection makes this valid.
+            if matches!(kind, "x-amz-date" | "date-beside-x-amz-date" | "x-amz-date-beside-date" | "token") {
+                m.auth.signed.retain(|n| !matches!(n.as_str(), "x-amz-date" | "date" | "x-amz-security-token"));
+                origin.auth.signed = m.auth.signed.clone();
+                sign(&origin.logical, &mut origin.auth, &origin.quirks, &acct.secret);
+            }
             sign(&m.logical, &mut m.auth, &m.quirks, &acct.secret);
         }
         out.fault(&format!("dup[{}][{}]", kind, if before { "before" } else { "after" }));
@@ -1263,9 +1270,10 @@ fn c19_world(t: &mut Tape, forced: Option<(usize, bool)>) -> RunOut {
         // time is not this property's subject: the server clock reads the request instant
         let _ = gen::gen_offset(t, false);
         let now_ns = m.auth.instant_ns;
+        // no re-spelling here: the duplication is the only thing that differs from the baseline
         let wire = render(&m, t, &RenderOpts {
-                mask: crate::world::NOISE_ALL,
-            noise: 1,
+            mask: crate::world::NOISE_ALL,
+            noise: 0,
             s3: node.cfg.s3,
             permute_pairs: false,
         });
